@@ -547,6 +547,39 @@ func runC04(c *Ctx) {
 			}
 		}
 	}
+	// the table written as a map: the lookup under a section's kind must be the comma-ok form (an unlisted kind would
+	// otherwise silently become the zero PageType) — the mapping itself is then data, and is not read here
+	{
+		kindDerived := func(v ssa.Value) bool {
+			return sl.Derives(v, func(x ssa.Value) bool {
+				return flow.IsFieldLoad(x, repoPath("ovmf/abi"), "SevMetadataSection", "Kind")
+			})
+		}
+		for _, g := range c.P.RepoFunctions() {
+			if load.RelPkg(g) != "sev" || c.isTestFunc(g) || g.Blocks == nil {
+				continue
+			}
+			k := 0
+			for _, b := range g.Blocks {
+				for _, in := range b.Instrs {
+					lk, ok := in.(*ssa.Lookup)
+					if !ok {
+						continue
+					}
+					mt, ok := lk.X.Type().Underlying().(*types.Map)
+					if !ok || !namedIs(mt.Elem(), sevPkg, "PageType") || !kindDerived(lk.Index) {
+						continue
+					}
+					k++
+					if lk.CommaOk {
+						nTables++
+					}
+					c.S.Check(lk.CommaOk, "R2", fmt.Sprintf("%s:kind lookup #%d tells an unlisted kind apart", load.FuncName(g), k), c.pos(lk.Pos()), "the page type of a section kind is looked up in the comma-ok form",
+						"the page type of a section is looked up in a map under the section's kind without the comma-ok form: a kind the map does not list silently becomes the zero PageType instead of being refused as unknown")
+				}
+			}
+		}
+	}
 	c.S.Floor("R2", "section-kind to page-type tables", 1, nTables)
 
 	// ---------------- R9 presence of an address is not tested by comparing it with zero ----------------
